@@ -24,6 +24,14 @@ extern uint32_t symx_terminated;
 /* STUB(orig) defines a harness-side replacement for library function `orig`.
  * CBMC route: the function is emitted as stub_<orig> and ll2c redirects every call of orig to it.
  * native route: it is emitted under the original name and the library object has orig weakened. */
+/* natively every stub would override its library function in every query of the harness file: a stub is compiled in
+   only when the query lists it (the engine passes -DUSE_<replacement name>); wrap each stub definition in
+   #if STUB_ON(<replacement name>) ... #endif */
+#ifdef SYMX_NATIVE
+#define STUB_ON(repl) defined(USE_##repl)
+#else
+#define STUB_ON(repl) 1
+#endif
 #ifdef SYMX_NATIVE
 #define STUBNAME(orig) orig
 #else
